@@ -62,7 +62,7 @@ def configs(tier, seed):
         for r, a, x in ((2, 1, 0), (1, 2, 0), (1, 1, 1), (2, 1, 1)):
             out.append(dict(name="screen r=%d a=%d +%d" % (r, a, x), h="screen", rows=r, arity=a, extra=x))
         out.append(dict(name="screen r=2 a=2 +0 one-plate", h="screen", rows=2, arity=2, extra=0, plates="one"))
-        out.append(dict(name="screen r=2 a=3 fixed-doses, name / dose arrays assembled column by column (transposed views)", h="screen", rows=2, arity=3,
+        out.append(dict(name="screen r=2 a=2 fixed-doses, name / dose arrays assembled column by column (transposed views)", h="screen", rows=2, arity=2,
                         extra=0, doses="fixed", plates="one", layout=True, combine=False))
         for r, a, x in ((2, 2, 0), (1, 3, 0), (1, 2, 1), (1, 4, 0), (1, 3, 1)):
             out.append(dict(name="screen r=%d a=%d +%d fixed-doses" % (r, a, x), h="screen", rows=r, arity=a, extra=x,
